@@ -121,6 +121,7 @@ struct Globals {
   // lets a thread be delayed between publishing something and its next plain
   // access (use-after-publish bugs); drawn per run
   int post_pts = 0;
+  int relseq17 = 0;  // happens-before clocks follow the C++11-17 release-sequence rule (mem.cc loc_store)
   uint32_t jump_den = 0;
   Config pub{};
   // replay
